@@ -4,7 +4,7 @@ from vlib import core, corr
 
 AREA = "C05"
 MODULES = ["TinsModel.Props.C05"]
-AUDIT = "Audit/C05.lean"
+AUDIT = ["Audit/C05.lean", "Audit/WireDerived.lean"]   # the second: C05 stated over the wire models of C01-C04 (Wire/Derived)
 LEVEL = "proof"
 HARNESS = "c05_wire"
 MANIFEST = dict(
